@@ -242,6 +242,8 @@ func ErrClass(err error) string {
 	switch {
 	case has("no roaring bitmap provided"):
 		return "no-data"
+	case has("contradict its header"):
+		return "ill-formed"
 	case has("data too small"), has("buffer too small"), has("not long enough to be a roaring header"):
 		return "too-small"
 	case has("invalid roaring file, magic number"), has("unknown roaring magic number"):
